@@ -514,6 +514,8 @@ Proof.
     intros z. unfold InvE. replace (ekey_of _ z) with (ekey_of s z) by (destruct x, z; reflexivity). apply H.
   - cbn [fst]. intros z. unfold InvE. replace (ekey_of _ z) with (ekey_of s z) by (destruct x, z; reflexivity). apply H.
   - destruct (per s =? 0); cbn [fst]; [exact H|apply kill_invB; exact H].
+  - unfold sink_sync. destruct (live s x k); [|exact H]. destruct (_ <? _); cbn [fst]; [|exact H].
+    intros z. unfold InvE. replace (ekey_of _ z) with (ekey_of s z) by (destruct x, z; reflexivity). apply H.
 Qed.
 
 Lemma run_invB c : forall ts s, Inv s -> InvB c s -> InvB c (fst (run c s ts)).
